@@ -65,6 +65,10 @@ func (r *Run) buildViolation(g *G, label, msg string) {
 	if res == Sat {
 		v.Inputs = r.decodeInputs(model)
 	}
+	v.Obs = append([]string{}, r.obs...)
+	if bs := r.blockedSummary(); bs != "" {
+		v.Obs = append(v.Obs, "blocked: "+bs)
+	}
 	r.violation = v
 	r.outcome = OutViolation
 	r.reason = label + ": " + msg
